@@ -6,6 +6,7 @@ package main
 // as a full product; frame sequences by breadth-first search with canonical-state de-duplication.
 
 import (
+	"bytes"
 	"crypto/sha256"
 	"encoding/binary"
 	"encoding/hex"
@@ -240,7 +241,53 @@ func lpFrameString(n int, i int64) string {
 type lpQueued struct {
 	p    *pktT
 	fp   uint64
+	old  lpOld
 	what string // "Interest/bare", "Data/lp", ...
+}
+
+var lpPartNames = [4]string{"wire bytes", "PIT token", "link-layer marks (congestion mark / next-hop face / cache policy / incoming face)", "decoded packet"}
+
+// lpOld: cheap copies of the parts of a dispatched packet that can be named when the deep
+// fingerprint says the packet changed (anything else that changed is the decoded packet).
+type lpOld struct {
+	raw, tok []byte
+	marks    [4]uint64
+	have     uint8
+}
+
+func lpMarks(p *pktT) (m [4]uint64, have uint8) {
+	for i, v := range []*uint64{p.CongestionMark, p.NextHopFaceID, p.CachePolicy, p.IncomingFaceID} {
+		if v != nil {
+			m[i], have = *v, have|1<<uint(i)
+		}
+	}
+	return
+}
+
+func lpOldOf(p *pktT) (o lpOld) {
+	if p == nil {
+		return
+	}
+	o.raw, o.tok = append([]byte(nil), p.Raw...), append([]byte(nil), p.PitToken...)
+	o.marks, o.have = lpMarks(p)
+	return
+}
+
+// differs: index into lpPartNames of the first part that is no longer what it was.
+func (o lpOld) differs(p *pktT) int {
+	if p == nil {
+		return 3
+	}
+	if !bytes.Equal(o.raw, p.Raw) {
+		return 0
+	}
+	if !bytes.Equal(o.tok, p.PitToken) {
+		return 1
+	}
+	if m, h := lpMarks(p); m != o.marks || h != o.have {
+		return 2
+	}
+	return 3
 }
 
 type lpRxT struct {
@@ -248,6 +295,8 @@ type lpRxT struct {
 	hi     int // high-water mark of buf since reset
 	queued []lpQueued
 	known  map[*pktT]bool
+
+	changedPart string // set by changed(): which part of the packet differs
 }
 
 var lpRx = &lpRxT{buf: make([]byte, 32<<10), known: map[*pktT]bool{}}
@@ -303,6 +352,7 @@ func (r *lpRxT) eachNew(f func(p *pktT, data bool)) {
 func (r *lpRxT) settle(frame []byte) {
 	for i := range r.queued {
 		r.queued[i].fp = fpPkt(r.queued[i].p)
+		r.queued[i].old = lpOldOf(r.queued[i].p)
 	}
 	src := "bare"
 	if len(frame) > 0 && frame[0] == 0x64 {
@@ -317,7 +367,7 @@ func (r *lpRxT) settle(frame []byte) {
 			kind = "Data/"
 		}
 		r.known[p] = true
-		r.queued = append(r.queued, lpQueued{p: p, fp: fpPkt(p), what: kind + src})
+		r.queued = append(r.queued, lpQueued{p: p, fp: fpPkt(p), old: lpOldOf(p), what: kind + src})
 	})
 }
 
@@ -334,7 +384,8 @@ func (r *lpRxT) changed() string {
 					name = fmt.Sprintf(" name now %x", q.p.L3.Data.NameV.Bytes())
 				}
 			}()
-			return fmt.Sprintf("packet %d handed to a forwarding thread earlier (%s, %d bytes)%s", i, q.what, len(q.p.Raw), name)
+			r.changedPart = lpPartNames[q.old.differs(q.p)]
+			return fmt.Sprintf("the %s of packet %d handed to a forwarding thread earlier (%s, %d bytes)%s", r.changedPart, i, q.what, len(q.p.Raw), name)
 		}
 	}
 	return ""
@@ -430,6 +481,18 @@ type lpApplyResult struct {
 	state string // dump of the link service
 	q     int    // packets this frame dispatched
 	held  string // lpRx.sig() after this frame
+
+	verdict lpVerdict // class "?" = not computed (the frame changed nothing)
+	store0  map[uint64]lpSlotSnap
+	reasm0  bool
+}
+
+// verdictOf: the verdict on the frame just applied (computed on demand).
+func (r *lpApplyResult) verdictOf(frame []byte) lpVerdict {
+	if r.verdict.class == "?" {
+		r.verdict = lpClassify(frame, r.store0, r.reasm0)
+	}
+	return r.verdict
 }
 
 // lpApply feeds one frame to l (threads already installed) with panic recovery, allocation
@@ -439,6 +502,8 @@ func lpApply(l *fwface.NDNLPLinkService, frame []byte, measure bool, before stri
 		before, _ = fwface.VerifC04Dump(l)
 	}
 	q0 := queued()
+	store0, reasm0 := lpSnapStore(l), fwface.VerifC04ReassemblyEnabled(l)
+	r.store0, r.reasm0 = store0, reasm0
 	in := lpRx.load(frame) // the one receive buffer of this face; earlier frames are gone from it
 	var a0 uint64
 	if measure {
@@ -471,17 +536,30 @@ func lpApply(l *fwface.NDNLPLinkService, frame []byte, measure bool, before stri
 	}
 	earlier := lpRx.changed()
 	if r.q > 0 || r.state != before || earlier != "" {
-		p, _, err := spec.ReadPacket(enc.NewBufferReader(append([]byte{}, frame...)))
-		key, why := "", ""
-		if err != nil {
-			key, why = "undecodable frame changed link-service/dispatch state", fmt.Sprintf("frame does not decode (%v)", err)
-		} else if w := lpInvalidFragmentation(p); w != "" {
-			key, why = "LP frame with invalid fragmentation fields is not dropped cleanly (reassembly state or dispatch changed)", w
+		// the verdict on the frame given the reassembly store it met (lpreject.go)
+		vd := lpClassify(frame, store0, reasm0)
+		r.verdict = vd
+		key, why := "", vd.why
+		if vd.rejected() {
+			changed := r.q > 0 || earlier != ""
+			if vd.class == "completes-undecodable" {
+				changed = changed || lpDumpWithout(r.state, vd.base) != lpDumpWithout(before, vd.base)
+			} else {
+				changed = changed || r.state != before
+			}
+			if changed {
+				key = lpRejectKeys[vd.class]
+			}
+		} else if earlier != "" {
+			key, why = lpLaterKey, "frame accepted by the receive path"
 		}
 		if key != "" {
 			det := fmt.Sprintf("%s, yet queued=%d, state %q -> %q", why, r.q, before, r.state)
 			if earlier != "" {
-				key = "frame that fails to decode changes a packet already handed to a forwarding thread"
+				if vd.rejected() {
+					key = lpEarlierKey
+				}
+				key += ": " + lpRx.changedPart
 				det = fmt.Sprintf("%s, yet %s is no longer what was dispatched; queued=%d, state %q -> %q", why, earlier, r.q, before, r.state)
 			}
 			// one root cause, one key: is what changed a view of the receive buffer?
@@ -492,6 +570,8 @@ func lpApply(l *fwface.NDNLPLinkService, frame []byte, measure bool, before stri
 			r.v = &violation{Clause: "C04.state", Key: key, Detail: det}
 			return
 		}
+	} else {
+		r.verdict = lpVerdict{class: "?"} // nothing changed: verdict not needed (computed on demand by lpVerdictOf)
 	}
 	if msg := lpCheckQueues(); msg != "" {
 		r.v = &violation{Clause: "C04.state", Key: "undecodable packet dispatched to a forwarding thread", Detail: msg}
